@@ -129,8 +129,8 @@ func stuckWhere() string {
 		ks = append(ks, fmt.Sprintf("%s x%d", strings.ReplaceAll(k, "[...]", ""), n))
 	}
 	sort.Strings(ks)
-	if len(ks) > 6 {
-		ks = ks[:6]
+	if len(ks) > 14 {
+		ks = ks[:14]
 	}
 	return strings.Join(ks, "; ")
 }
@@ -247,12 +247,12 @@ func uploadqRun(tr *tracer, idx int, seed int64) {
 	fast := (idx/len(uqCaps))%2 == 0
 	rated := capq != 250
 	n := capq + 6
-	nblocks := 64
+	nblocks := 128
 	if !rated {
 		n, nblocks = 300, 320
 	}
 	tr.emit(ev{"op": "Init", "sub": "uploadq", "idx": idx, "cap": capq, "fast": fast, "rated": rated, "n": n, "period": 250, "warm": 5})
-	guard(tr, "uploadq", 60*time.Second, "scenario", func() {
+	guard(tr, "uploadq", 90*time.Second, "scenario", func() {
 		e := newEnv(false)
 		defer e.close()
 		tor := vh.Build(flat("uq", 4*blk, nblocks/4, 0), seed, nil, nil)
@@ -282,73 +282,134 @@ func uploadqRun(tr *tracer, idx int, seed int64) {
 		}
 		torrent.VerifSetUnchokePeriod(t, time.Hour)
 		next := 0
-		if rated && capq > 0 {
-			// warm-up: empty the token bucket (burst = 1 s of rate) with requests that are answered one by one
+		weChoke := true // what rain believes about us (PeerChoking); toggled by the markers
+		// warm empties the token bucket (burst = 1 s of rate) with requests that are answered one by one
+		warm := func() {
+			if !rated || capq == 0 {
+				return
+			}
 			tr.emit(ev{"op": "UQWarm", "t": e.ms()})
-			for ; next < 5; next++ {
+			for k := 0; k < 5; k++ {
 				p.c.Send(blockReq(tor, next))
+				next++
 				if !p.waitFor(vh.MsgPiece, 5*time.Second) {
 					fmt.Fprintln(os.Stderr, "uploadq: warm-up block not served")
 					os.Exit(2)
 				}
 			}
 		}
-		// the flood: n requests and a marker (our unchoke: visible in rain's loop snapshot) in ONE write
-		var buf []byte
-		for i := 0; i < n; i++ {
-			buf = append(buf, vh.EncodeMsg(blockReq(tor, next+i))...)
-			tr.emit(ev{"op": "UQReq", "i": next + i, "t": e.ms()})
+		// flood appends k requests for new blocks to buf
+		flood := func(buf []byte, k int) ([]byte, []int) {
+			var ids []int
+			for i := 0; i < k; i++ {
+				buf = append(buf, vh.EncodeMsg(blockReq(tor, next))...)
+				tr.emit(ev{"op": "UQReq", "i": next, "t": e.ms()})
+				ids = append(ids, next)
+				next++
+			}
+			return buf, ids
 		}
-		buf = append(buf, vh.EncodeMsg(vh.Msg{ID: vh.MsgUnchoke})...)
-		p.c.SendRaw(buf)
-		markC := make(chan int64, 1)
-		go func() {
-			ok := e.hub.Wait("t1", 20*time.Second, func(v *torrent.VerifSnap) bool {
-				return len(v.PeerList) > 0 && !v.PeerList[0].PeerChoking
-			})
-			if ok {
-				markC <- e.ms()
+		cancel := func(buf []byte, ids []int) []byte {
+			for _, i := range ids {
+				m := blockReq(tor, i)
+				m.ID = vh.MsgCancel
+				buf = append(buf, vh.EncodeMsg(m)...)
+				tr.emit(ev{"op": "UQCancel", "i": i, "t": e.ms()})
 			}
-		}()
-		answered := 0
-		quiet := 1200 * time.Millisecond
-		deadline := time.Now().Add(time.Duration(capq+12)*250*time.Millisecond + 3*time.Second)
-		marked := false
-		for answered < n && time.Now().Before(deadline) {
-			select {
-			case tm := <-markC:
-				tr.emit(ev{"op": "UQMarker", "t": tm})
-				marked = true
-				continue
-			default:
+			return buf
+		}
+		// marker: our choke state flips; rain's loop snapshot shows it once everything sent before has been handled
+		marker := func(buf []byte) ([]byte, chan int64) {
+			weChoke = !weChoke
+			id := vh.MsgChoke
+			if !weChoke {
+				id = vh.MsgUnchoke
 			}
-			x, ok := p.next(40 * time.Millisecond)
-			if !ok {
-				if quiet -= 40 * time.Millisecond; quiet <= 0 && marked {
-					break
+			buf = append(buf, vh.EncodeMsg(vh.Msg{ID: id})...)
+			want := weChoke
+			c := make(chan int64, 1)
+			go func() {
+				if e.hub.Wait("t1", 30*time.Second, func(v *torrent.VerifSnap) bool { return len(v.PeerList) > 0 && v.PeerList[0].PeerChoking == want }) {
+					c <- e.ms()
 				}
-				continue
-			}
-			quiet = 1200 * time.Millisecond
-			switch x.m.ID {
-			case vh.MsgPiece:
-				tr.emit(ev{"op": "UQPiece", "i": blockNo(tor, x.m), "t": x.t, "intact": bytes.Equal(x.m.Data, tor.PieceData(int(x.m.Index))[x.m.Begin:int(x.m.Begin)+len(x.m.Data)])})
-				answered++
-			case vh.MsgReject:
-				tr.emit(ev{"op": "UQReject", "i": blockNo(tor, x.m), "t": x.t})
-				answered++
-			}
+			}()
+			return buf, c
 		}
-		if !marked {
-			select {
-			case tm := <-markC:
-				tr.emit(ev{"op": "UQMarker", "t": tm})
-			case <-time.After(5 * time.Second):
+		// collect reads answers until want of them arrived or nothing came for a while after the marker was seen
+		collect := func(want int, markC chan int64, limit time.Duration) {
+			answered := 0
+			quiet := 1200 * time.Millisecond
+			deadline := time.Now().Add(limit)
+			marked := false
+			for answered < want && time.Now().Before(deadline) {
+				select {
+				case tm := <-markC:
+					tr.emit(ev{"op": "UQMarker", "t": tm})
+					marked = true
+					continue
+				default:
+				}
+				x, ok := p.next(40 * time.Millisecond)
+				if !ok {
+					if quiet -= 40 * time.Millisecond; quiet <= 0 && marked {
+						break
+					}
+					continue
+				}
+				quiet = 1200 * time.Millisecond
+				switch x.m.ID {
+				case vh.MsgPiece:
+					tr.emit(ev{"op": "UQPiece", "i": blockNo(tor, x.m), "t": x.t, "intact": bytes.Equal(x.m.Data, tor.PieceData(int(x.m.Index))[x.m.Begin:int(x.m.Begin)+len(x.m.Data)])})
+					answered++
+				case vh.MsgReject:
+					tr.emit(ev{"op": "UQReject", "i": blockNo(tor, x.m), "t": x.t})
+					answered++
+				}
 			}
+			if !marked {
+				select {
+				case tm := <-markC:
+					tr.emit(ev{"op": "UQMarker", "t": tm})
+				case <-time.After(5 * time.Second):
+				}
+			}
+			tr.emit(ev{"op": "UQEnd", "t": e.ms()})
 		}
-		tr.emit(ev{"op": "UQEnd", "t": e.ms()})
+		per := time.Duration(capq+12)*250*time.Millisecond + 3*time.Second
+		if !rated {
+			// default limit, no rate limit: flood far above the cap, read everything
+			buf, _ := flood(nil, n)
+			buf, mc := marker(buf)
+			p.c.SendRaw(buf)
+			collect(n, mc, per)
+		} else {
+			// round 1: flood above the cap; while the writer is still waiting for its first tokens (the queue is full and
+			// the refusals of the excess sit behind it) cancel the refused requests and one accepted one, then flood again
+			warm()
+			buf, a := flood(nil, n)
+			var canc []int
+			canc = append(canc, a[min(capq+1, len(a)):]...) // refused (fast) or dropped (no fast extension)
+			if capq >= 1 {
+				canc = append(canc, a[capq]) // the last accepted one: still queued
+			}
+			buf = cancel(buf, canc)
+			buf, _ = flood(buf, n)
+			buf, mc := marker(buf)
+			p.c.SendRaw(buf)
+			collect(2*n, mc, per)
+			// round 2 on the same connection: whatever the counter of the writer has become, the cap must still hold
+			// (rain never chokes a single peer, interested or not, so the queue is not dropped in between)
+			tr.emit(ev{"op": "UQRound"})
+			warm()
+			buf, a = flood(nil, n)
+			buf = cancel(buf, a[min(capq+1, len(a)):])
+			buf, _ = flood(buf, 3)
+			buf, mc = marker(buf)
+			p.c.SendRaw(buf)
+			collect(2*n+3, mc, per)
+		}
 		p.c.Close()
-		call(tr, "uploadq", "Session.Close", 15*time.Second, func() { s.Close() })
+		call(tr, "uploadq", "Session.Close", 30*time.Second, func() { s.Close() })
 	})
 }
 
@@ -506,7 +567,7 @@ func pipelineRun(tr *tracer, idx int, seed int64) {
 		settle(q)
 		tr.emit(ev{"op": "PLEnd", "left": len(out)})
 		p.c.Close()
-		call(tr, "pipeline", "Session.Close", 15*time.Second, func() { s.Close() })
+		call(tr, "pipeline", "Session.Close", 30*time.Second, func() { s.Close() })
 	})
 }
 
@@ -593,7 +654,7 @@ func ramRun(tr *tracer, idx int, seed int64) {
 			case <-time.After(wait):
 			}
 			// the loop must stay responsive whatever the limit is
-			call(tr, "ram", "Torrent.Stats", 5*time.Second, func() { t.Stats() })
+			call(tr, "ram", "Torrent.Stats", 20*time.Second, func() { t.Stats() })
 			tr.emit(ev{"op": "RamDone", "tid": i + 1, "complete": done, "fits": fits})
 		}
 		for i, t := range ts {
@@ -621,7 +682,7 @@ func ramRun(tr *tracer, idx int, seed int64) {
 		}
 		st := s.Stats()
 		tr.emit(ev{"op": "RamRest", "size": st.WriteCacheSize, "objects": st.WriteCacheObjects, "pending": st.WriteCachePendingKeys})
-		call(tr, "ram", "Session.Close", 15*time.Second, func() { s.Close() })
+		call(tr, "ram", "Session.Close", 30*time.Second, func() { s.Close() })
 	})
 }
 
@@ -847,7 +908,7 @@ func webseedRun(tr *tracer, idx int, seed int64) {
 			done = true
 		case <-time.After(8 * time.Second):
 		}
-		call(tr, "webseed", "Torrent.Stats", 5*time.Second, func() { t.Stats() })
+		call(tr, "webseed", "Torrent.Stats", 20*time.Second, func() { t.Stats() })
 		var last [3]int
 		first := true
 		for _, x := range e.T.Snapshot() {
@@ -867,7 +928,7 @@ func webseedRun(tr *tracer, idx int, seed int64) {
 		}
 		close(stopW)
 		tr.emit(ev{"op": "WsEnd", "complete": done, "overms": overMs.Load(), "peak": peak.Load()})
-		call(tr, "webseed", "Session.Close", 15*time.Second, func() { s.Close() })
+		call(tr, "webseed", "Session.Close", 30*time.Second, func() { s.Close() })
 	})
 }
 
@@ -927,7 +988,7 @@ func rateRun(tr *tracer, idx int, seed int64) {
 			case <-t.NotifyComplete():
 			case <-time.After(40 * time.Second):
 			}
-			defer func() { call(tr, "rate", "Session.Close", 15*time.Second, func() { s.Close() }) }()
+			defer func() { call(tr, "rate", "Session.Close", 30*time.Second, func() { s.Close() }) }()
 		case "up":
 			tor := vh.Build(lay, seed, nil, nil)
 			s, t := seedSession(e, tr, "rate", tor, func(c *torrent.Config) { c.SpeedLimitUpload = rateKB })
@@ -971,7 +1032,7 @@ func rateRun(tr *tracer, idx int, seed int64) {
 			}
 			slack = blk
 			p.c.Close()
-			defer func() { call(tr, "rate", "Session.Close", 15*time.Second, func() { s.Close() }) }()
+			defer func() { call(tr, "rate", "Session.Close", 30*time.Second, func() { s.Close() }) }()
 		case "ws":
 			tor0 := vh.Build(lay, seed, nil, nil)
 			farm := newFarm(tr, tor0, 1, 1)
@@ -1011,7 +1072,7 @@ func rateRun(tr *tracer, idx int, seed int64) {
 				}
 			}
 			slack = 2 * plen
-			defer func() { call(tr, "rate", "Session.Close", 15*time.Second, func() { s.Close() }) }()
+			defer func() { call(tr, "rate", "Session.Close", 30*time.Second, func() { s.Close() }) }()
 		default:
 			fmt.Fprintln(os.Stderr, "rate: unknown -mode", kind)
 			os.Exit(2)
@@ -1188,10 +1249,10 @@ func configRun(tr *tracer, idx int, seed int64) {
 				}
 			}
 		}
-		call(tr, "config", "Torrent.Stats", 5*time.Second, func() { t.Stats() })
-		call(tr, "config", "Session.Stats", 5*time.Second, func() { s.Stats() })
+		call(tr, "config", "Torrent.Stats", 20*time.Second, func() { t.Stats() })
+		call(tr, "config", "Session.Stats", 20*time.Second, func() { s.Stats() })
 		tr.emit(ev{"op": "CfgDone", "started": up, "completed": completed, "served": served})
-		call(tr, "config", "Session.Close", 15*time.Second, func() { s.Close() })
+		call(tr, "config", "Session.Close", 30*time.Second, func() { s.Close() })
 	})
 }
 
